@@ -228,6 +228,40 @@ def check_translates(seed):
     c[5:9, 5:9, 1:5] = 1         # two cubes sharing an edge
     c[5:9, 5:9, 7:11] = 1
     cases.append(("edge3d", c, 2.0, [True, True, True]))
+    # ---- one-dimensional waves with exactly four cells per period, sampled as 0, 1, 0, -1: every droplet is ONE cell
+    # (radius exactly half a cell); counted length = box / number of periods = 4 cells, for every spacing
+    from pde import CartesianGrid, ScalarField
+
+    for nper, dx1 in ((3, 1.0), (8, 0.25), (5, 2.0**-9), (16, 64.0)):
+        ncell = 4 * nper
+        g1 = CartesianGrid([(0.0, ncell * dx1)], ncell, periodic=True)
+        j = np.arange(ncell)
+        vals = np.array([0.0, 1.0, 0.0, -1.0])[j % 4]
+        n += 1
+        for shift in (0, 1, 2, 3):
+            got = measure(ScalarField(g1, np.roll(vals, shift)), "droplet_detection")
+            if not (abs(got - 4 * dx1) <= 1e-12 * 4 * dx1):
+                fails.append(f"wave1d/droplet_detection: {got!r} for {nper} one-cell droplets in a box of {ncell} cells of size {dx1} (expected {4 * dx1})")
+    # ---- the same picture on two grids of equal shape whose spacings are exchanged (0.5, 2) <-> (2, 0.5): one after the
+    # other in this process
+    rngp = np.random.default_rng(seed + 17)
+    shp = (24, 24)
+    xx = (np.arange(24) + 0.5)
+    pic = np.sin(2 * np.pi * 3 * xx / 24)[:, None] * np.ones(24)[None, :] + 0.05 * rngp.standard_normal(shp)
+    ga = CartesianGrid([(0.0, 24 * 0.5), (0.0, 24 * 2.0)], list(shp), periodic=True)
+    gb = CartesianGrid([(0.0, 24 * 2.0), (0.0, 24 * 0.5)], list(shp), periodic=True)
+    va = {m: measure(ScalarField(ga, pic), m) for m in METHODS}
+    vb = {m: measure(ScalarField(gb, pic.T), m) for m in METHODS}
+    n += 1
+    for m in METHODS:
+        if m == "structure_factor_maximum":
+            bin_ = 2 * np.pi / (24 * 0.5)
+            ok = np.isfinite(va[m]) and np.isfinite(vb[m]) and abs(2 * np.pi / va[m] - 2 * np.pi / vb[m]) <= 0.5 * bin_ \
+                and abs(2 * np.pi / va[m] - 2 * np.pi * 3 / 12.0) <= 0.5 * bin_
+        else:
+            ok = np.isfinite(va[m]) and abs(va[m] - vb[m]) <= 1e-9 * abs(va[m])
+        if not ok:
+            fails.append(f"aniso/{m}: {va[m]!r} on spacings (0.5, 2), {vb[m]!r} for the transposed picture on spacings (2, 0.5)")
     for name, data, dx, per in cases:
         shape = data.shape
         ref = {m: measure(make_field(shape, dx, data, 0, per), m) for m in METHODS}
